@@ -9,6 +9,7 @@ pub mod c03;
 pub mod c05;
 pub mod c06;
 pub mod c07;
+pub mod c09;
 pub mod c12;
 pub mod codec;
 
@@ -24,6 +25,10 @@ pub fn run(prop: &str, leg: &str, ctx: &Ctx, rep: &mut Report) -> bool {
         ("C07", "small-exhaustive") => c07::small_exhaustive(ctx, rep),
         ("C07", "compress-sweep") => c07::compress_sweep(ctx, rep),
         ("C07", "cursor") => c07::cursor(ctx, rep),
+        ("C09", "blocks") => c09::blocks(ctx, rep),
+        ("C09", "totality") => c09::totality(ctx, rep),
+        ("C09", "distribution") => c09::distribution(ctx, rep),
+        ("C09", "in-situ") => c09::in_situ(ctx, rep),
         ("C12", "exhaustive") => c12::exhaustive(ctx, rep),
         _ => return false,
     }
@@ -38,6 +43,7 @@ pub fn replay(v: &Value) -> bool {
         "C12" => c12::replay(r),
         "C07" => codec::replay(r),
         "C03" => c03::replay(r),
+        "C09" => c09::replay(r),
         "C05" => c05::replay(r),
         "C06" => c06::replay(r),
         "C02" => c02::replay(r),
